@@ -81,6 +81,10 @@ def obligations_step(run, prop, tables, tables_err):
         res['broken'].append('translator: cannot reflect the working tree: %s'
                              % (tables_err or '')[-400:])
         return res
+    needs = list(getattr(prop, 'NEEDS', []))
+    for g, msg in sorted((tables.get('errors') or {}).items()):
+        if g in needs:
+            res['broken'].append('translator: cannot reflect %s from the working tree: %s' % (g, msg[:300]))
     with common.Lock():
         res['generated_changed'] = common.write_generated(tables)
         targets = (['diffx_driver'] + list(prop.TIE_MODULES) +
